@@ -31,7 +31,7 @@ RULE = (
     "Hypothesis: base (generated canonical program or corpus file) x insertion plan of 1..30 edits drawn over the "
     "token-safe boundaries of that base; plus deterministic single edits (quick: a stride, thorough: every safe boundary "
     "x every comment style of every corpus file) and trivia-stripping of generated programs. A quarter of the generated C / C++ bases "
-    "holds an #if 0 region; one generated case in five goes scan -> edit on disk -> scan (some of these edits make the file invalid UTF-8 beyond its first 8 KiB). Non-trivial = at least one "
+    "holds an #if 0 region, some bases are hand-written texts that already carry suppression markers; one generated case in five goes scan -> edit on disk -> scan (some of these edits make the file invalid UTF-8 beyond its first 8 KiB). Non-trivial = at least one "
     "inserted blank / whitespace / comment-only line lands strictly inside a reported function's span; distinct by "
     "digest of (base, plan)"
 )
